@@ -88,22 +88,23 @@ def _check_objects(doc, case, who, which="enc"):
                 who, xs["n"], data[:24], xs[which][:24])
         if got_id != case["id"]:
             return "%s: cross-reference stream object %d: /ID %r, written %r" % (who, xs["n"], got_id, case["id"])
-    for n, g, v in case["objs"]:
-        try:
-            got = _strip_len(W.observe(doc.getobj(n)))
-        except Exception as e:
-            return "%s: getobj(%d) [gen %d] raised %s: %s" % (who, n, g, type(e).__name__, e)
-        exp = _expected(v, payloads, n)
-        if not W.same(exp, got):
-            return "%s: object %d gen %d differs from the original: %s" % (who, n, g, W.first_diff(exp, got))
+    for rep in ("", " (read a second time)"):
+        for n, g, v in case["objs"]:
+            try:
+                got = _strip_len(W.observe(doc.getobj(n)))
+            except Exception as e:
+                return "%s: getobj(%d) [gen %d]%s raised %s: %s" % (who, n, g, rep, type(e).__name__, e)
+            exp = _expected(v, payloads, n)
+            if not W.same(exp, got):
+                return "%s: object %d gen %d%s differs from the original: %s" % (who, n, g, rep, W.first_diff(exp, got))
     return None
 
 
-def _open(pdf, pw):
+def _open(pdf, pw, caching=True):
     from pdfminer.pdfdocument import PDFDocument
     from pdfminer.pdfparser import PDFParser
 
-    return PDFDocument(PDFParser(io.BytesIO(pdf)), password=pw)
+    return PDFDocument(PDFParser(io.BytesIO(pdf)), password=pw, caching=caching)
 
 
 def _text(pdf, pw):
@@ -166,7 +167,9 @@ def run_case(case):
         for label, pw in opens:
             who = "%s password %r" % (label, pw)
             try:
-                doc = _open(pdf, pw)
+                # (every other password is tried on a document that does not cache objects: each getobj parses and
+                # deciphers the object again)
+                doc = _open(pdf, pw, caching=(len(str(pw)) + len(pdf)) % 2 == 0)
             except Exception as e:
                 return Outcome(classes, nt, fail="%s rejected: %s: %s; desc=%r" % (who, type(e).__name__, e, desc))
             if case.get("decoy"):
